@@ -76,7 +76,16 @@ theorem disc_exec (s : S C R W D) (t : Tid) (i : Instr R W D) (rest : List (Inst
     | cont rg db =>
       exact disc_adv h hp (fun u hu => hu) (Or.inl (by simp)) (fun u hu => by simp [upd_other _ _ _ _ hu])
     | stop r db =>
-      exact disc_abort { s with db := db } t r h
+      simp only
+      split
+      路 intro u hu
+        have hu' : holdsSession s u = true := hu
+        by_cases hut : u = t
+        路 subst hut
+          simp only [upd_same]
+          cases (s.m == some u) <;> simp [unwind, noABlock]
+        路 simp only [upd_other _ _ _ _ hut]; exact h u hu'
+      路 exact disc_abort { s with db := db } t r h
   have ht := h1.typed t
   rw [hp] at ht
   cases i with
@@ -120,7 +129,7 @@ theorem disc_exec (s : S C R W D) (t : Tid) (i : Instr R W D) (rest : List (Inst
     split
     路 exact disc_abort s t .busy h
     路 exact disc_adv h hp (fun u hu => hu) (Or.inl (by simp)) (fun u hu => by simp [upd_other _ _ _ _ hu])
-  | aWriteUnlock =>
+  | aWriteUnlock rv =>
     simp only [exec]
     exact disc_adv h hp (fun u hu => hu) (Or.inl (by simp)) (fun u hu => by simp [upd_other _ _ _ _ hu])
   | mLock =>
@@ -426,7 +435,10 @@ theorem unblocked_step (s : S C R W D) (t : Tid) (i : Instr R W D) (rest : List 
   simp only [next, hp]
   rw [hp] at h
   by_cases hi : i.isEff = true
-  路 rw [exec_isEff ops s t i rest hi]; split <;> simp
+  路 rw [exec_isEff ops s t i rest hi]
+    split
+    路 simp
+    路 split <;> simp
   路 cases i <;> simp [Instr.isEff] at hi <;> simp at h <;> simp [exec, h]
     路 split <;> simp
 
@@ -457,7 +469,9 @@ theorem next_thr_other (s : S C R W D) (e : Event R W D) (u : Tid) (h : e.tid 
       simp only
       by_cases hi : i.isEff = true
       路 rw [exec_isEff ops s t i rest hi]
-        split <;> simp [abort, upd_other _ _ _ _ hu]
+        split
+        路 simp [upd_other _ _ _ _ hu]
+        路 split <;> simp [abort, upd_other _ _ _ _ hu]
       路 cases i <;> simp [Instr.isEff] at hi <;> simp only [exec] <;> (try split) <;>
           simp [abort, upd_other _ _ _ _ hu]
 
